@@ -20,6 +20,11 @@ REPO = "/repo"
 
 # (property, relative file, old text, new text, substring of the unit expected to fail)
 MUTANTS = [
+    ("C22", "unified_planning/model/multi_agent/agent.py", "        new_ag._fluents = self._fluents.copy()\n", "        new_ag._fluents = self._fluents\n", "Agent.clone"),
+    ("C22", "unified_planning/model/multi_agent/agent.py", "        new_ag._public_goals = self._public_goals.copy()\n", "        new_ag._public_goals = self._private_goals.copy()\n", "Agent.clone"),
+    ("C22", "unified_planning/model/multi_agent/agent.py", "            new_ag.add_action(a.clone())\n", "            new_ag.add_action(a)\n", "Agent.clone"),
+    ("C22", "unified_planning/model/multi_agent/agent.py", "        if name is None:\n            name = self.name\n        new_ag = Agent(name, ma_problem)", "        new_ag = Agent(self.name, ma_problem)", "Agent.clone[name given]"),
+    ("C22", "unified_planning/model/multi_agent/agent.py", "        for a in self.actions:\n            new_ag.add_action(a.clone())\n        return new_ag", "        for a in self.actions[1:]:\n            new_ag.add_action(a.clone())\n        return new_ag", "Agent.clone"),
     ("C22", "unified_planning/model/multi_agent/ma_problem.py", "        new_p._agents = [ag.clone(new_p) for ag in self._agents]\n", "        new_p._agents = [ag.clone(self) for ag in self._agents]\n", "MultiAgentProblem.clone"),
     ("C22", "unified_planning/model/multi_agent/ma_problem.py", "        new_p._objects = self._objects[:]\n        new_p._initial_value", "        new_p._objects = self._objects\n        new_p._initial_value", "MultiAgentProblem.clone"),
     ("C22", "unified_planning/model/multi_agent/ma_problem.py", "        new_p._goals = self._goals[:]\n        new_p._initial_defaults = self._initial_defaults.copy()\n        return new_p", "        new_p._initial_defaults = self._initial_defaults.copy()\n        return new_p", "MultiAgentProblem.clone"),
